@@ -7,6 +7,8 @@ import VsgModel.Engine.Relations
 import VsgModel.Check.Verdict
 import VsgModel.Generated.Rules
 import VsgProofs.Lemmas.Engine
+import VsgProofs.Lemmas.BaseAlign
+import VsgModel.Base.Dispatch
 namespace Vsgm.C03
 open Vsgm
 
@@ -68,6 +70,28 @@ theorem layoutOnly_keeps_code_and_comments (fold : Str → Str) (a b : List Tok)
 theorem caseOnly_keeps (fold : Str → Str) (a b : List Tok) (h : CaseOnly fold a b) :
     a.length = b.length ∧ codeSeq fold a = codeSeq fold b ∧ commentSeq a = commentSeq b :=
   ⟨h.length fold, h.codeSeq fold, h.commentSeq fold⟩
+
+/-! ### layer B: `_fix_violation` of modelled base classes, for ALL tokens of interest and ALL actions -/
+
+/-- every `align_tokens_in_region_between_tokens*` rule: whatever token index and (also
+    negative) adjustment the analysis recorded, the fix changes nothing but whitespace tokens -/
+theorem bfix_align_layoutOnly (owner : String) (params action : Base.KV) (old new : List Tok)
+    (ho : owner ∈ Base.alignOwners) (h : Base.fixByOwner owner params action old = some (.ok new)) :
+    LayoutOnly old new := by
+  unfold Base.fixByOwner at h
+  simp only [ho, if_true, Option.some.injEq] at h
+  cases h1 : Base.needInt action "token_index" with
+  | error e => simp [h1, bind, Except.bind] at h
+  | ok ti =>
+    cases h2 : Base.needInt action "adjust" with
+    | error e => simp [h1, h2, bind, Except.bind] at h
+    | ok adj =>
+      simp only [h1, h2, bind, Except.bind] at h
+      exact Base.Align.fixV_layoutOnly _ _ _ _ _ h
+
+/-- the rules served by that model are documented layout rules (alignment group) -/
+theorem align_owners_are_layout_rules : ∀ r ∈ Gen.ruleTable, r.fixVOwner ∈ Base.alignOwners →
+    Verdict.effectOfGroups r.groups = .layout := by decide +kernel
 
 /-! ### table facts, re-checked against the regenerated rule table on every run -/
 
